@@ -75,33 +75,42 @@ def one_call(step, weights, files, cv, ov):
     learner = step['learner']
     f = files[step['file']]
     form = step.get('form', 'path')
+    # in-memory forms carry what the file means: a line with frequency k (third column) is k events
+    meant = [(list(c), list(o)) for k, (c, o) in enumerate(f['events'])
+             for _ in range(1 if f.get('freq') is None else int(f['freq'][k]))]
     if form == 'path':
         arg = f['path']
+    elif form == 'pathobj':
+        import pathlib
+        arg = pathlib.Path(f['path'])       # accepted by ndl.ndl only; the meta data must hold str(path)
     elif form == 'list':
-        arg = [(list(c), list(o)) for c, o in f['events']]
+        arg = meant
     elif form == 'generator':
-        arg = ((list(c), list(o)) for c, o in f['events'])
+        arg = (e for e in meant)
     else:
         raise RuntimeError('bad form')
-    passed = arg if isinstance(arg, str) else None
+    passed = arg if isinstance(arg, str) else (str(arg) if form == 'pathobj' else None)
     n_jobs = int(step.get('n_jobs', 2))
+    chunk = {}
+    if step.get('per_file') is not None:
+        chunk['events_per_temporary_file'] = int(step['per_file'])
     if learner == 'ndl':
         w = ndl.ndl(arg, lit(step['alpha']), (lit(step['beta1']), lit(step['beta2'])), lit(step['lambda']),
                     method=step['method'], weights=weights, n_jobs=n_jobs,
-                    n_outcomes_per_job=int(step.get('per_job', 10)), remove_duplicates=None)
+                    n_outcomes_per_job=int(step.get('per_job', 10)), remove_duplicates=None, **chunk)
     elif learner == 'dict_ndl':
         w = ndl.dict_ndl(arg, lit(step['alpha']), (lit(step['beta1']), lit(step['beta2'])), lit(step['lambda']),
                          weights=weights, remove_duplicates=None,
                          make_data_array=bool(step.get('make_data_array', True)))
     elif learner == 'wh_r2r':
         w = wh.wh(arg, lit(step['eta']), cue_vectors=cv, outcome_vectors=ov, method=step['method'],
-                  weights=weights, n_jobs=n_jobs, remove_duplicates=None)
+                  weights=weights, n_jobs=n_jobs, remove_duplicates=None, **chunk)
     elif learner == 'wh_b2r':
         w = wh.wh(arg, lit(step['eta']), outcome_vectors=ov, method=step['method'],
-                  weights=weights, n_jobs=n_jobs, remove_duplicates=None)
+                  weights=weights, n_jobs=n_jobs, remove_duplicates=None, **chunk)
     elif learner == 'wh_r2b':
         w = wh.wh(arg, lit(step['eta']), cue_vectors=cv, method=step['method'],
-                  weights=weights, n_jobs=n_jobs, remove_duplicates=None)
+                  weights=weights, n_jobs=n_jobs, remove_duplicates=None, **chunk)
     elif learner == 'dict_wh':
         w = wh.dict_wh(arg, lit(step['eta']), cv, ov, weights=weights, remove_duplicates=None,
                        make_data_array=bool(step.get('make_data_array', False)))
@@ -153,8 +162,8 @@ def op_attrs_chain(t):
                 full = os.path.join(cd.inp, name)
             else:
                 path = full = os.path.join(cd.inp, name)
-            impl.write_event_file(full, [(list(c), list(o)) for c, o in f['events']])
-            files.append({'path': path, 'events': f['events']})
+            impl.write_event_file(full, [(list(c), list(o)) for c, o in f['events']], freq=f.get('freq'))
+            files.append({'path': path, 'events': f['events'], 'freq': f.get('freq')})
         if t.get('relative_paths'):
             os.chdir(cd.inp)
         cv = vectors(t.get('cue_vectors'), 'cues', 'cue_vector_dimensions')
